@@ -87,6 +87,9 @@ func narrowingRule(c *Ctx, rule string, pkgs map[string]bool, min int) {
 			limit := int64(1)<<uint(to) - 1
 			val := cx.Lin(cv.X)
 			okB, _ := cx.Entails(facts, bounds.Konst(limit).Add(val, -1))
+			if !okB {
+				okB = narrowBoundedByCallers(p, f, cv.X, limit)
+			}
 			r.Check(okB, rule, key, p.Pos(ins.Pos()), fmt.Sprintf("a length-derived value (%s) is converted to a %d-bit integer without a dominating guard bounding it: for inputs of 2^%d bytes or more the value wraps, so distinct inputs produce the same encoded length", val, to, to),
 				fmt.Sprintf("bounded by a dominating guard (<= %d)", limit))
 		})
@@ -146,4 +149,57 @@ func lenDerivedRaw(v ssa.Value, depth int) bool {
 		}
 	}
 	return false
+}
+
+// narrowBoundedByCallers: v is len(param) (through conversions) in an unexported
+// helper; the bound holds when every call site of the helper in the module is a
+// static call dominated by a guard bounding the length of the argument passed.
+func narrowBoundedByCallers(p *core.Program, f *ssa.Function, v ssa.Value, limit int64) bool {
+	for {
+		if cv, ok := v.(*ssa.Convert); ok {
+			v = cv.X
+			continue
+		}
+		if ct, ok := v.(*ssa.ChangeType); ok {
+			v = ct.X
+			continue
+		}
+		break
+	}
+	call, ok := v.(*ssa.Call)
+	if !ok {
+		return false
+	}
+	if b, isB := call.Call.Value.(*ssa.Builtin); !isB || b.Name() != "len" || len(call.Call.Args) != 1 {
+		return false
+	}
+	prm, ok := call.Call.Args[0].(*ssa.Parameter)
+	if !ok || token.IsExported(f.Name()) || f.Parent() != nil {
+		return false
+	}
+	idx := -1
+	for i, q := range f.Params {
+		if q == prm {
+			idx = i
+		}
+	}
+	sites := p.Callers(f)
+	if idx < 0 || len(sites) == 0 {
+		return false
+	}
+	for _, site := range sites {
+		cc := site.Common()
+		if cc.StaticCallee() != f || idx >= len(cc.Args) || site.Parent() == nil {
+			return false
+		}
+		if _, isCall := site.(*ssa.Call); !isCall {
+			return false
+		}
+		cx := bounds.NewCtx(site.Parent())
+		facts := cx.FactsToLin(guard.InstrFacts(site.(ssa.Instruction)))
+		if okS, _ := cx.Entails(facts, bounds.Konst(limit).Add(cx.LenOf(cc.Args[idx]), -1)); !okS {
+			return false
+		}
+	}
+	return true
 }
